@@ -3,6 +3,7 @@ package astisub
 import (
 	"bytes"
 	"encoding/xml"
+	"io"
 	"time"
 )
 
@@ -131,6 +132,9 @@ var vttmlItemsPos int
 func vstubXMLDecode(v interface{}) error {
 	switch t := v.(type) {
 	case *TTMLIn:
+		if vttmlDoc == nil {
+			return io.EOF
+		}
 		*t = *vttmlDoc
 	case *TTMLInItems:
 		*t = vttmlItems[vttmlItemsPos]
